@@ -4596,6 +4596,12 @@ XPath::predicates(
         else
         {
             theLength = subQueryResults.getLength();
+
+            // The list was filtered in place, so any position the
+            // execution context has cached for it is stale.  Re-push
+            // the list to reset the cache for the next predicate.
+            executionContext.popContextNodeList();
+            executionContext.pushContextNodeList(subQueryResults);
         }
     }
 
